@@ -346,6 +346,16 @@ fn family_cfg(rng: &mut Rng, fam: u64) -> (Cfg, String, String) {
                 keys: ("default".into(), "/".into()), codecs_json: json, chain_desc: format!("shard[{}x{};{};vlen]", inner[0], inner[1], loc), sharded: true, path: "/a".into(), eff_inner: Some(inner.clone()) };
             return (cfg, "none".into(), format!(" isz={} nchunks={} idx={}:{} icrc={} isum=0 vlen=1", isz, n, loc, if big { "big" } else { "little" }, icrc as u8));
         }
+        7 => { // a checksum directly over an ODD number of payload bytes (one-byte elements, odd chunk): the checksums that work on
+               // 16-bit words treat the last byte on a path of its own
+            let dt = dts.iter().filter(|d| d.es == Some(1) && d.name != "bool").nth(rng.below(2) as usize).unwrap_or_else(|| dts.iter().find(|d| d.es == Some(1) && d.name != "bool").unwrap()).clone();
+            let fill = dt.fills[0].clone();
+            let chunk = vec![*rng.pick(&[1u64, 3]), *rng.pick(&[1u64, 3, 5])];
+            let shape = vec![chunk[0] * rng.range(1, 2), chunk[1] * rng.range(1, 2)];
+            let cfg = Cfg { dtype: dt, fill, shape, grid: vec![(true, vec![chunk[0]]), (true, vec![chunk[1]])], regular_impl: true,
+                keys: ("default".into(), "/".into()), codecs_json: format!("[{{\"name\":\"bytes\"}},{}]", sum.0), chain_desc: format!("bytes|{}", sum.1), sharded: false, path: "/a".into(), eff_inner: None };
+            return (cfg, "outer".into(), String::new());
+        }
         0 => { // checksum outermost
             let mut cs = vec![bytes.clone()]; let mut d = vec!["bytes".to_string()];
             if !comp.0.is_empty() { cs.push(comp.0.into()); d.push(comp.1.into()); }
@@ -379,7 +389,7 @@ pub fn generate(tier: &str, seed: u64) -> Vec<String> {
     let ncfg = if thorough { 700 } else { 70 };
     let mut out = vec![];
     for k in 0..ncfg {
-        let fam = (k % 7) as u64;
+        let fam = (k % 8) as u64;
         let (cfg, prot, extra) = if fam < 4 || fam >= 5 { family_cfg(&mut rng, fam) } else { (gen_cfg(&mut rng, Some(k % 2 == 0)), "none".to_string(), String::new()) };
         // (every fifth case on a filesystem store: its ranged reads validate byte ranges through `ByteRange::is_valid`, the memory
         // store has its own inline copy of that test)
